@@ -117,7 +117,7 @@ func runC17(c *core.Ctx, crashes bool) {
 		c.Failf("client state right after creation differs from the model: %s: %s", what, detail)
 	}
 
-	steps := 45 + ch.Int(45)
+	steps := (45 + ch.Int(45)) * c.Scale
 	for i := 0; i < steps; i++ {
 		c.Step("c17")
 		weights := []int{55, 27, 10, 4, 4}
